@@ -378,6 +378,113 @@ fn main() {
         }
     }
 
+    // ---------------------------------------------------------------- scan hammer: a prefix scan is one of the states it overlapped
+    // keys a, b present; one writer cycles put(c); delete(a); put(a); delete(c): the key set is always {a,b}, {a,b,c} or {b,c},
+    // so every scan must list b, and a or c, and nothing else
+    for cls in [4u8, 1, 2] {
+        let store = TensorStore::new();
+        let pfx = format!("{}scan:", PREFIX[cls as usize]);
+        let key = |x: &str| format!("{pfx}{x}");
+        let val = |n: i64| { let mut t = TensorData::new(); t.set("v", TensorValue::Scalar(ScalarValue::Int(n))); t.set("pad", TensorValue::Scalar(ScalarValue::String("x".repeat(200)))); t };
+        store.put(key("a"), val(1)).unwrap();
+        store.put(key("b"), val(2)).unwrap();
+        let stop = Arc::new(std::sync::atomic::AtomicBool::new(false));
+        let (s1, st1, ka, kc) = (store.clone(), stop.clone(), key("a"), key("c"));
+        let v3 = val(3);
+        let writer = std::thread::spawn(move || {
+            let mut n = 0u64;
+            while !st1.load(Ordering::Relaxed) {
+                s1.put(kc.clone(), v3.clone()).unwrap();
+                let _ = s1.delete(&ka);
+                s1.put(ka.clone(), v3.clone()).unwrap();
+                let _ = s1.delete(&kc);
+                n += 4;
+            }
+            n
+        });
+        let mut readers = vec![];
+        for _ in 0..3 {
+            let (s2, st2, pfx2) = (store.clone(), stop.clone(), pfx.clone());
+            readers.push(std::thread::spawn(move || {
+                let mut scans = 0u64;
+                let mut bad: Option<String> = None;
+                while !st2.load(Ordering::Relaxed) && bad.is_none() {
+                    let mut ks: Vec<String> = s2.scan(&pfx2).iter().map(|k| k[pfx2.len()..].to_string()).collect();
+                    ks.sort();
+                    scans += 1;
+                    let has = |x: &str| ks.iter().any(|k| k == x);
+                    if !has("b") || !(has("a") || has("c")) || ks.iter().any(|k| !["a", "b", "c"].contains(&k.as_str())) {
+                        bad = Some(format!("scan({pfx2:?}) returned {ks:?}; the store only ever held {{a,b}}, {{a,b,c}} or {{b,c}}"));
+                    }
+                }
+                (scans, bad)
+            }));
+        }
+        std::thread::sleep(Duration::from_millis(args.budget(350, 2000) as u64));
+        stop.store(true, Ordering::Relaxed);
+        let writes = writer.join().unwrap();
+        let mut scans = 0; let mut bad: Option<String> = None;
+        for h in readers { let (n, bq) = h.join().unwrap(); scans += n; if bad.is_none() { bad = bq; } }
+        dist.add(&format!("scanhammer.{}.scans", PREFIX[cls as usize].trim_end_matches(':')), scans);
+        hammer.push(&format!("s{cls}"), &format!("scan-hammer prefix={pfx} writes={writes} scans={scans} bad={bad:?}"), scans > 0);
+        if let Some(bq) = bad {
+            hits.push("scan-not-a-state", &format!("writer cycles put(c) delete(a) put(a) delete(c) next to 3 scanning threads, after {scans} scans / {writes} writes: {bq}"), json!({"kind": "scan-hammer", "prefix": pfx, "seed": args.seed}));
+        }
+    }
+
+    // ---------------------------------------------------------------- recover: after quiescence the recovered store answers like memory,
+    // scans included; values of every key class may carry an `_embedding` (put_durable registers such keys in the entity index)
+    {
+        let wal2 = dir.join("recover.wal");
+        let _ = std::fs::remove_file(&wal2);
+        let cfg2 = WalConfig { sync_mode: SyncMode::Manual, ..WalConfig::default() };
+        let st = TensorStore::open_durable(&wal2, cfg2.clone()).unwrap();
+        let prefixes = ["m", "node:", "table:", "emb:", "user:", "edge:"];
+        let mk = |n: i64, emb: bool| { let mut t = TensorData::new(); t.set("v", TensorValue::Scalar(ScalarValue::Int(n))); if emb { t.set("_embedding", TensorValue::Vector(vec![n as f32, 1.0, 2.0])); } t };
+        let mut script = vec![];
+        for (pi, p) in prefixes.iter().enumerate() {
+            let k = |i: usize| format!("{p}r{i}");
+            let base = (pi * 10) as i64;
+            st.put_durable(k(0), mk(base, true)).unwrap();
+            st.put_durable(k(1), mk(base + 1, true)).unwrap();
+            st.put_durable(k(2), mk(base + 2, true)).unwrap();
+            st.put_durable(k(3), mk(base + 3, false)).unwrap();
+            let _ = st.delete_durable(&k(0));                       // a key that carried a vector
+            let _ = st.delete_durable(&k(3));
+            st.put_durable(k(1), mk(base + 4, false)).unwrap();   // overwritten without a vector
+            if rng.chance(1, 2) { let _ = st.delete_durable(&k(2)); st.put_durable(k(2), mk(base + 5, true)).unwrap(); script.push(format!("re-created {}", k(2))); }
+        }
+        st.wal_sync().unwrap();
+        let view = |s: &TensorStore| -> Vec<String> {
+            let mut out = vec![];
+            for p in prefixes {
+                let mut ks = s.scan(&format!("{p}r"));
+                ks.sort();
+                out.push(format!("scan({p}r)={ks:?}"));
+                for i in 0..4 {
+                    let k = format!("{p}r{i}");
+                    let g = s.get(&k).ok().map(|t| { let mut f: Vec<String> = t.iter().map(|(a, bq)| format!("{a}={bq:?}")).collect(); f.sort(); f });
+                    out.push(format!("get({k})={g:?} exists={}", s.exists(&k)));
+                }
+            }
+            out
+        };
+        let mem = view(&st);
+        drop(st);
+        match TensorStore::recover(&wal2, &cfg2, None) {
+            Ok(rec) => {
+                let r = view(&rec);
+                let diff: Vec<(String, String)> = mem.iter().zip(&r).filter(|(a, bq)| a != bq).map(|(a, bq)| (a.clone(), bq.clone())).collect();
+                durable.push("r", &format!("recover: {} observations (scan/get/exists over 6 key classes, values with and without _embedding) compared, {} differ", mem.len(), diff.len()), true);
+                dist.add("recover.observations", mem.len() as u64);
+                if let Some((a, bq)) = diff.first() {
+                    hits.push("recovery-differs", &format!("durable puts/deletes on every key class (values carrying `_embedding`), quiescence, recover: in memory {a} but after recovery {bq} ({} observations differ)", diff.len()), json!({"kind": "recover", "memory": a, "recovered": bq}));
+                }
+            }
+            Err(e) => hits.push("recover-error", &format!("recover failed: {e}"), json!({"kind": "recover"})),
+        }
+    }
+
     write_meta(
         &args.out,
         json!({
